@@ -280,6 +280,9 @@ func runCheck(cfg *PropConfig, tier string, seed int) int {
 	}
 
 	// evidence
+	if tier == "thorough" && os.Getenv("GOVC_NO_CORPUS") == "" && violations == 0 && len(undecided) == 0 {
+		corpusResults = runCorpus(cfg.ID)
+	}
 	writeEvidence(cfg, tier, seed, all, total, discharged, violations, knownHits, solverMs, undecided, time.Since(t0).Seconds())
 
 	for _, r := range all {
@@ -319,6 +322,8 @@ func truncate(s string, n int) string {
 	}
 	return s
 }
+
+var corpusResults []corpusResult
 
 func writeEvidence(cfg *PropConfig, tier string, seed int, all []*FuncReport, total, discharged, violations, knownHits int, solverMs map[string]int64, undecided []string, wall float64) {
 	type fnInfo struct {
@@ -410,6 +415,7 @@ func writeEvidence(cfg *PropConfig, tier string, seed int, all []*FuncReport, to
 		"undecided":                undecided,
 		"evaluations":              total,
 		"distinct_nontrivial":      discharged,
+		"mustfail_corpus":          corpusSummary(),
 		"rule":                     "one SMT query per named proof obligation generated from the current source of the functions under contract; an obligation is non-trivial when it is not syntactically `true` (trivial ones are not emitted) and distinct by name",
 	}
 	ev := map[string]interface{}{
@@ -560,4 +566,17 @@ func cmdSweep(args []string) {
 		}
 	}
 	fmt.Printf("sweep: %d safety obligations, %d candidates\n", total, failed)
+}
+
+func corpusSummary() map[string]interface{} {
+	if corpusResults == nil {
+		return map[string]interface{}{"run": false, "note": "the must-fail corpus (/verif/seeded) is exercised in the thorough tier only"}
+	}
+	caught := 0
+	for _, r := range corpusResults {
+		if r.Caught {
+			caught++
+		}
+	}
+	return map[string]interface{}{"run": true, "seeds": len(corpusResults), "caught": caught, "results": corpusResults}
 }
